@@ -9,9 +9,9 @@ AB = R.cset(b'ab')
 DOT = ('set', R.DOT)
 
 
-def scanners(api):
+def scanners(api, less3=False):
     ops = [H.OP_LESS, H.OP_UNPUT, H.OP_INPUT1, H.OP_INPUT2, H.OP_INPUT3, H.OP_MORE, H.OP_RETURN]
-    act = H.ops_action(ops, api)
+    act = H.ops_action(ops, api, less3=less3)
     mk = lambda *rs: [H.Rule(r[0], trail=r[1] if len(r) > 1 else None, scs=["S"], action=act) for r in rs]
     return ops, [
         ("runs", mk((R.plus(A),), (R.plus(B),), (NL,), (DOT,))),
@@ -47,6 +47,20 @@ def jobs_for(tier):
                             kn = dict(knobs, VF_BUFSIZES="0")
                             jobs.append(dict(groups=[g], options=opts, api=api, cdefs=(["VF_ARRAY"] if array else []) + ["VF_SOURCE_SCAN=%d" % src], knobs=kn,
                                              tag="%s-%s-%d-scan%d" % (name, api, array, src), driver_args=["-H", "80"]))
+    # yyless() called from a function in section 3 (the skeleton redefines it there): same histories, same model
+    for api in ("NR", "R", "C99"):
+        ops, scs = scanners(api, less3=True)
+        for name, rules in scs[:2] if quick else scs:
+            for array in (0, 1):
+                for lineno in (0, 1):
+                    opts = (["reentrant"] if api == "R" else []) + (["array"] if array else []) + (["yylineno"] if lineno else [])
+                    knobs = {"VF_OPMASK": H.opmask(*ops), "VF_BUDGET_DEFAULT": dev, "VF_BUDGET_TOTAL": dev, "VF_BUFSIZES": "0,1,3", "VF_UNPUT_CHARS": '"a\\n"',
+                             "VF_OPS_PER_ACTION": 2}
+                    if lineno:
+                        knobs["VF_CHECK_LINENO"] = 1
+                    g = H.Group([("S", True)], rules, "S", b"ab\n", L, label="%s/%s/%s/section3%s" % (name, api, "array" if array else "pointer", "/yylineno" if lineno else ""))
+                    jobs.append(dict(groups=[g], options=opts, api=api, cdefs=(["VF_ARRAY"] if array else []) + ["VF_LESS3"], knobs=knobs,
+                                     tag="%s-%s-%d-%d-less3" % (name, api, array, lineno), driver_args=["-H", "80"]))
     return jobs
 
 
